@@ -105,3 +105,147 @@ def truth_table_impl(prov, n_units, n_cands=2):
 def conj_prov(I, rows, n_units):
     """conjunctive provenance from unit sets (value-1 literals)"""
     return make_prov(I, [{"conj": [[u, 1] for u in r]} if len(r) > 1 else {"eq": [r[0], 1]} for r in rows], n_units)
+
+
+def global_state():
+    """process-global state that scoring must not change as a side effect: numpy's floating-point error mode and error callback, the CONTENT of
+    warnings.filters, the environment.  (The state of numpy's global random generator is NOT part of it: the library deliberately calls np.random.seed.)"""
+    import warnings
+    return dict(np_geterr=dict(np.geterr()), np_geterrcall=repr(np.geterrcall()),
+                warnings_filters=[(f[0], getattr(f[1], "pattern", f[1]), "%s.%s" % (f[2].__module__, f[2].__qualname__), getattr(f[3], "pattern", f[3]), f[4])
+                                  for f in warnings.filters],
+                os_environ=dict(os.environ))
+
+
+def global_state_diff(before, after):
+    """{name: {before, after}} of the parts of global_state() that differ (for environ / filters only the differing entries)"""
+    out = {}
+    for k in before:
+        if before[k] == after[k]:
+            continue
+        b, a = before[k], after[k]
+        if k == "os_environ":
+            keys = sorted(x for x in set(b) | set(a) if b.get(x) != a.get(x))
+            b, a = {x: b.get(x) for x in keys}, {x: a.get(x) for x in keys}
+        elif k == "warnings_filters":
+            b, a = [list(f) for f in b if f not in after[k]], [list(f) for f in a if f not in before[k]]
+            if not b and not a:
+                b, a = "same entries, other order", "same entries, other order"
+        out[k] = dict(before=b, after=a)
+    return out
+
+
+# ---- raw 4-D containers (padding slots anywhere) and general slices: additive helpers for C03 / C05 / C12 / C19 ----------------------
+
+PAD = [-1, -1]
+
+
+def rand_raw_data(rng, n_units, n_cands=2, rows=None, nd=None, nc=None, p_zero=0.2):
+    """a raw (rows, disjuncts, conjuncts, 2) nested list as the public constructor Provenance(units=..., data=...) accepts it: every slot is either a
+    literal [unit position, candidate index] or the padding slot [-1, -1], and padding may stand ANYWHERE - in front of the literals of a disjunct,
+    between them, behind them (the only place the library's own encoders put it); a whole disjunct may be padding (in any disjunct position) and so
+    may a whole row."""
+    import gen
+    rows = rng.randint(1, 6) if rows is None else rows
+    nd = rng.randint(1, 3) if nd is None else nd
+    nc = rng.randint(1, 3) if nc is None else nc
+    data = []
+    for _ in range(rows):
+        row = []
+        for _ in range(nd):
+            k = rng.random()
+            if k < 0.2:
+                n_real = 0                                  # an all-padding disjunct
+            elif k < 0.45:
+                n_real = nc                                 # no padding
+            else:
+                n_real = rng.randint(1, nc)
+            where = set(rng.sample(range(nc), n_real))      # the slots holding literals: any subset, so padding leads / is interior / trails
+            row.append([gen.rand_lit(rng, n_units, n_cands, p_zero) if s in where else list(PAD) for s in range(nc)])
+        data.append(row)
+    return data
+
+
+def raw_to_exprs(data):
+    """by definition: a disjunct is the conjunction of its non-padding literals, a disjunct without literals contributes nothing, so a row is the
+    disjunction of its non-empty disjuncts (JSON form; a row without any real disjunct is {"disj": []} = false)"""
+    return [{"disj": [[[int(u), int(c)] for (u, c) in cj if not (u == -1 and c == -1)] for cj in row if any(not (u == -1 and c == -1) for (u, c) in cj)]}
+            for row in data]
+
+
+def raw_true(row, a):
+    """truth value of one raw row under assignment a (candidate index per unit position), straight from the slots"""
+    for cj in row:
+        lits = [(u, c) for (u, c) in cj if not (u == -1 and c == -1)]
+        if lits and all(a[u] == c for (u, c) in lits):
+            return True
+    return False
+
+
+def raw_padding_kinds(data):
+    """which padding placements a raw container holds (for the distribution record)"""
+    kinds = set()
+    for row in data:
+        if all(u == -1 for cj in row for (u, _c) in cj):
+            kinds.add("empty-row")
+        for cj in row:
+            real = [u != -1 for (u, _c) in cj]
+            if not any(real):
+                kinds.add("empty-disjunct")
+                continue
+            if all(real):
+                continue
+            first, last = real.index(True), len(real) - 1 - real[::-1].index(True)
+            if first > 0:
+                kinds.add("leading")
+            if last < len(real) - 1:
+                kinds.add("trailing")
+            if not all(real[first:last + 1]):
+                kinds.add("interior")
+    return kinds
+
+
+def raw_model_prov(data, n_units, n_cands=2):
+    """the same container in the Lean driver's raw transport (lean/Driver.lean provOf: data / nDisj / nConj)"""
+    return {"nUnits": n_units, "nCands": n_cands, "data": data, "nDisj": len(data[0]), "nConj": len(data[0][0])}
+
+
+def make_raw_prov(I, data, n_units, n_cands=2, keys=None, ckeys=None, form="int64"):
+    """real Provenance from a raw nested list through the public constructor. form: 'int64' / 'int32' ndarray, 'list' (nested plain list),
+    '3d' ((rows, conjuncts, 2) array; only for one disjunct per row)."""
+    P = I["provenance"]
+    cands = n_cands if ckeys is None else list(ckeys)
+    if keys is None:
+        keys = list(range(n_units))
+        raw = P.Units(units=n_units, candidates=cands)
+    else:
+        raw = P.Units(units=list(keys), candidates=cands)
+    units = UView(raw, keys, ckeys)
+    if form == "list":
+        arg = [[[list(l) for l in cj] for cj in row] for row in data]
+    elif form == "3d":
+        assert all(len(row) == 1 for row in data)
+        arg = np.array([row[0] for row in data], dtype=np.int64)
+    else:
+        arg = np.array(data, dtype=(np.int32 if form == "int32" else np.int64))
+    return P.Provenance(units=raw, data=arg), units
+
+
+def rand_slice(rng, n):
+    """a slice over a sequence of length n as a caller may write it: each bound is open (None), in range, negative (counted from the end) or out of
+    range on either side; the step is open, positive or NEGATIVE (so p[::-1], p[3::-1], p[::-2], p[2:-100:-1], p[-100:100:2] ... all occur)"""
+    def bound():
+        k = rng.random()
+        if k < 0.3:
+            return None
+        if k < 0.6:
+            return rng.randrange(0, n + 1)
+        if k < 0.8:
+            return -rng.randint(1, n + 1)
+        return rng.choice([n + 1, n + 7, 100, -n - 2, -100])
+    step = rng.choice([None, 1, 2, 3, -1, -1, -2, -3])
+    return slice(bound(), bound(), step)
+
+
+def slice_json(sl):
+    return [sl.start, sl.stop, sl.step]
